@@ -249,7 +249,9 @@ func monikerClasses(thorough bool) [][2]string {
 
 func descClasses(thorough bool) [][2]string {
 	c := [][2]string{{"empty", ""}, {"len4999", rep("d", 4999)}, {"len5000", rep("d", 5000)}, {"len5001", rep("d", 5001)}, {"multibyte5000bytes", rep("é", 2500)}, {"multibyte2501runes", rep("é", 2501)},
-		{"len65536", rep("d", 65536)}, {"len70536", rep("d", 65536+5000)}, {"not-utf8", "a\xffb"}}
+		{"len65536", rep("d", 65536)}, {"len70536", rep("d", 65536+5000)}, {"not-utf8", "a\xffb"},
+		// short multi-byte text: more than 64 bytes in fewer than 64 characters, and just around 64 bytes
+		{"hangul30chars90bytes", rep("가", 30)}, {"cjk22chars66bytes", rep("日", 22)}, {"cjk21chars63bytes", rep("日", 21)}}
 	if thorough {
 		c = append(c, [2]string{"control", "a\x00\x01\n"})
 	}
@@ -543,7 +545,9 @@ func didDomains(e *domEnv, thorough bool) []*msgDom {
 		return &didtypes.VerificationMethod{Id: d.Id + "#" + suffix, Type: typ, Controller: d.Id, PublicKeyBase58: key}
 	}
 	sufC := [][2]string{{"key1", "key1"}, {"empty", ""}, {"len128", rep("k", 128)}, {"len129", rep("k", 129)}, {"space", "a b"}, {"newline", "a\nb"},
-		{"second-hash-total129", rep("k", 127) + "#k"}, {"second-hash-space-before", "my key#1"}, {"second-hash-total128", rep("k", 126) + "#k"}}
+		{"second-hash-total129", rep("k", 127) + "#k"}, {"second-hash-space-before", "my key#1"}, {"second-hash-total128", rep("k", 126) + "#k"},
+		// letters whose UTF-8 encoding contains the bytes 0x85 / 0xA0 (as code points these would be NEL / NBSP): ordinary non-space text
+		{"letters-with-bytes-85-a0", "clé-à-Å-Рх"}}
 	if thorough {
 		sufC = append(sufC, [2]string{"tab", "a\tb"}, [2]string{"len1", "k"}, [2]string{"multibyte128bytes", rep("é", 64)}, [2]string{"multibyte65runes", rep("é", 65)}, [2]string{"hash", "a#b"})
 	}
